@@ -40,6 +40,11 @@ class HarnessError(Exception):
     pass
 
 
+class MalformedAnswer(Exception):
+    """raised by harness helpers when a value returned by the library does not even have the expected shape / type (e.g. a list of
+    tuples where element ids are expected): that is a violation of whatever oracle was about to look at it, not a harness error"""
+
+
 class Inconclusive(BaseException):
     """raised by the watchdog; BaseException so that library `except Exception` cannot swallow it"""
 
@@ -325,6 +330,9 @@ def run_case(mod, sc, case, stats, tier, findings, raise_known=False, record=Tru
         raise
     except HarnessError:
         raise
+    except MalformedAnswer as e:
+        ctx.fail("malformed-answer", str(e))
+        return ctx
     except Exception as e:
         if is_mouette_frame(e.__traceback__):
             where = innermost_mouette_frame(e.__traceback__)
